@@ -9,6 +9,7 @@ constructor rejected every merge-function object, `set_merge` rejected a toleran
 -/
 import BBModel.Estimator
 import Mathlib.Tactic.Linarith
+import BBProofs.GenEq4
 
 namespace BB
 
@@ -186,5 +187,77 @@ theorem C17_ctor (thr : Rat) (bf : Nat) (s : String) (tol : Option Rat) (m : Mer
 example : (setMerge (init { thr := 1/2, bf := 3, merge := { crit := .tolDiameter, tol := 1/5 } })
     (some (.name "tolerance-radius")) none (some (1/4)) none).1.cfg.merge.tolerance? = some (1/5) := by
   decide +kernel
+
+
+/-! ## The same for the code itself
+
+`BBGen.BitBirch_init` (the constructor up to the first statement that does not concern `threshold`,
+`branching_factor`, `_merge_accept_fn`), `BBGen.BitBirch_set_merge`, `BBGen.BitBirch_tolerance` are the Lean text that
+`tools/py2lean.py` wrote from `bblean/bitbirch.py` on this run.  A call returns its status (`None` or the exception)
+followed by the three attributes; merge-function objects are `objOf expf m`; `_global_merge_accept` is `None`. -/
+
+/-- code: `set_merge(criterion, tolerance=, threshold=, branching_factor=)` is the model's `setMerge` -/
+theorem C17_code_set_merge (expf : Rat → Rat) (e : Est) (crit : Option CritArg) (tol thr : Option Rat) (bf : Option Nat) :
+    BBGen.BitBirch_set_merge expf (PV.flt (some e.cfg.thr)) (PV.int e.cfg.bf) (objOf expf e.cfg.merge)
+        (critPV expf crit) (optRatPV tol) (optRatPV thr) (optNatPV bf) PV.pynone
+      = (match (setMerge e crit tol thr bf).2 with
+         | none => PV.pynone
+         | some _ => PV.err "ValueError")
+        :: cfgState expf (setMerge e crit tol thr bf).1.cfg.thr (setMerge e crit tol thr bf).1.cfg.bf
+             (setMerge e crit tol thr bf).1.cfg.merge := by
+  rw [gen_set_merge]
+  unfold setMerge
+  cases selectMerge (some e.cfg.merge) crit tol <;> rfl
+
+/-- code: the constructor is the model's `construct` -/
+theorem C17_code_ctor (expf : Rat → Rat) (thr : Rat) (bf : Nat) (crit : Option CritArg) (tol : Option Rat) :
+    BBGen.BitBirch_init expf (PV.flt (some thr)) (PV.int bf) (critPV expf crit) (optRatPV tol) PV.pynone
+      = match construct thr bf crit tol with
+        | .error _ => [PV.err "ValueError", PV.flt (some thr), PV.int bf, PV.pynone]
+        | .ok e => PV.pynone :: cfgState expf e.cfg.thr e.cfg.bf e.cfg.merge := by
+  rw [gen_init]
+  unfold construct
+  cases selectMerge none (some (crit.getD (.name "diameter"))) tol <;> rfl
+
+/-- code: constructor and `set_merge` accept exactly the same (criterion, tolerance) arguments -/
+theorem C17_code_accept_iff (expf : Rat → Rat) (e : Est) (thr : Rat) (bf : Nat) (a : CritArg) (tol : Option Rat) :
+    (BBGen.BitBirch_init expf (PV.flt (some thr)) (PV.int bf) (critPV expf (some a)) (optRatPV tol) PV.pynone).head? = some PV.pynone
+    ↔ (BBGen.BitBirch_set_merge expf (PV.flt (some e.cfg.thr)) (PV.int e.cfg.bf) (objOf expf e.cfg.merge)
+        (critPV expf (some a)) (optRatPV tol) PV.pynone PV.pynone PV.pynone).head? = some PV.pynone := by
+  have hs : BBGen.BitBirch_set_merge expf (PV.flt (some e.cfg.thr)) (PV.int e.cfg.bf) (objOf expf e.cfg.merge)
+      (critPV expf (some a)) (optRatPV tol) PV.pynone PV.pynone PV.pynone = _ :=
+    C17_code_set_merge expf e (some a) tol none none
+  rw [C17_code_ctor, hs]
+  have hm := C17_accept_iff e thr bf a tol
+  cases hc : construct thr bf (some a) tol with
+  | error x =>
+    have : ¬ (setMerge e (some a) tol none none).2 = none := by
+      rw [← hm]; rintro ⟨e', he'⟩; rw [hc] at he'; cases he'
+    cases hsm : (setMerge e (some a) tol none none).2 with
+    | none => exact absurd hsm this
+    | some y => simp
+  | ok e1 =>
+    have : (setMerge e (some a) tol none none).2 = none := hm.mp ⟨e1, hc⟩
+    simp [this]
+
+/-- code: a `set_merge` that raises leaves the three attributes exactly as they were -/
+theorem C17_code_atomic (expf : Rat → Rat) (e : Est) (crit : Option CritArg) (tol thr : Option Rat) (bf : Option Nat)
+    (msg : String) (rest : List PV)
+    (h : BBGen.BitBirch_set_merge expf (PV.flt (some e.cfg.thr)) (PV.int e.cfg.bf) (objOf expf e.cfg.merge)
+        (critPV expf crit) (optRatPV tol) (optRatPV thr) (optNatPV bf) PV.pynone = PV.err msg :: rest) :
+    rest = cfgState expf e.cfg.thr e.cfg.bf e.cfg.merge := by
+  rw [C17_code_set_merge] at h
+  cases hsm : (setMerge e crit tol thr bf).2 with
+  | none => rw [hsm] at h; simp at h
+  | some x =>
+    have he : (setMerge e crit tol thr bf).1 = e :=
+      C17_atomic e _ crit tol thr bf x (by rw [← hsm])
+    rw [he] at h
+    simp only [List.cons.injEq] at h
+    exact h.2.symm
+
+/-- code: the `tolerance` property reads the model's `tolerance?` -/
+theorem C17_code_tolerance (expf : Rat → Rat) (a b : PV) (m : MergeFn) :
+    BBGen.BitBirch_tolerance expf a b (objOf expf m) = optRatPV m.tolerance? := gen_tolerance expf a b m
 
 end BB
